@@ -68,6 +68,15 @@ Theorem C20_discipline_necessary : forall acts,
 Proof. exact discipline_necessary. Qed.
 Print Assumptions C20_discipline_necessary.
 
+(** An unbuffered Notify channel (never well-formed) loses a signal that arrives before the launcher is parked in
+    its select: there is a run after which nothing but the daemon's idle loop can ever happen — the launcher
+    waits forever and Launch never returns, although the daemon is alive and has called Done(). *)
+Theorem C20_unbuffered_notify_deadlocks : exists sched s,
+  run unbuffered_order 0 init sched = Some s /\ terminated s = false /\ done s = true /\ dalive s = true /\
+  forall l s', step unbuffered_order 0 s l = Some s' -> idle s l = true /\ s' = s.
+Proof. exact unbuffered_deadlock. Qed.
+Print Assumptions C20_unbuffered_notify_deadlocks.
+
 (** What the scanned discipline means: every cmd.Start() is preceded by a signal.Notify. *)
 Theorem C20_discipline_meaning : forall acts,
   notify_before_start acts = true <-> (forall pre post, acts = pre ++ AStart :: post -> In ANotify pre).
@@ -79,6 +88,12 @@ Print Assumptions C20_discipline_meaning.
     timing (which is why the test suite never saw the defect). *)
 Example C20_fixed_order_ok : well_formed fixed_order = true /\ notify_before_start fixed_order = true.
 Proof. split; vm_compute; reflexivity. Qed.
+(** writing the pid after the select is as good (the pid only has to be on stdout when the launcher exits) *)
+Example C20_late_writepid_ok :
+  well_formed [ANotify; AStart; ASpawnWait; ASelect; AWritePid] = true
+  /\ notify_before_start [ANotify; AStart; ASpawnWait; ASelect; AWritePid] = true
+  /\ well_formed unbuffered_order = false /\ well_formed [ANotify; AStart; AWritePid; ASelect] = false.
+Proof. repeat split; vm_compute; reflexivity. Qed.
 Example C20_fixed_order_runs :
   exists s, run fixed_order 2 init
       [StepCaller; StepLauncher; StepLauncher; StepDaemon; StepDaemon; StepDaemon; StepDaemon; StepDaemon; Deliver;
